@@ -38,7 +38,14 @@ RULE = ("part 'format': Eliot messages (metadata + action/message typing + field
         "Widened (r9): half of the 'cli' streams carry their messages in other legal JSON-text spellings of the same bytes-on-a-line (a UTF-8 signature EF BB BF in front of the first line as a utf-8-sig text file writes it, "
         "or in front of any message line as in concatenated logs; CRLF line ends; blanks/tabs/CR around the JSON text) - each such line still is that message and must be rendered, not reported. "
         "Every fourth 'format' message is additionally rendered several times from ONE dict object (sequences of pretty_format / compact_format / local-time renderings, 3-5 calls): every rendering is judged by the same "
-        "re-parsing oracle against the message as generated, the caller's dict must equal a deep copy taken before, and read-only views of the message (types.MappingProxyType, pyrsistent.pmap) are rendered like the message itself")
+        "re-parsing oracle against the message as generated, the caller's dict must equal a deep copy taken before, and read-only views of the message (types.MappingProxyType, pyrsistent.pmap) are rendered like the message itself. "
+        "Each of those repeated renderings must also equal, character for character, the rendering of a fresh deep copy of the message that no formatter has seen before (no dependence on earlier calls; "
+        "local_timezone=True renderings only if the functions have that parameter), and the dict handed over must equal the deep copy (snapshot) taken before the first call. "
+        "part 'sigfile': a separate interpreter logs a small generated program (nested actions with fields over the JSON-native domain, messages, failing actions, tracebacks) through "
+        "eliot.FileDestination(file=open(path, 'w', encoding='utf-8-sig')) / to_file of such a file (newline translation default, LF, CR LF or none; one run, two runs appending to one file, or two such logs "
+        "concatenated), so the file starts with the UTF-8 signature EF BB BF directly followed by the first message; the file is read independently (signature stripped, one JSON text per line) and given to the "
+        "command as stdin in pretty, compact and --local-timezone mode: exit status 0, one record per line in order, every line - the one behind the signature included - rendered as the API renders that "
+        "message, and that rendering passes the re-parsing oracle")
 ASSUMPTIONS = ["field names contain no whitespace and no '=' (otherwise the compact form is ambiguous to any reader)",
                "the CLI is run with UTF-8 standard streams"]
 
@@ -57,6 +64,8 @@ def plan(tier, seed):
     specs += [{"part": "keylen", "seed": seed, "lo": i, "hi": i + 1, "maxlen": 120 if tier == "quick" or i % 2 == 0 else 200}
               for i in range(2 if tier == "quick" else 10)]
     specs += [{"part": "live", "seed": seed, "lo": i, "hi": i + 1} for i in range(4 if tier == "quick" else 24)]
+    g = 24 if tier == "quick" else 240
+    specs += [{"part": "sigfile", "seed": seed, "lo": i, "hi": min(g, i + 2)} for i in range(0, g, 2)]
     return specs
 
 
@@ -225,6 +234,12 @@ try:
 except Exception:  # (pyrsistent is a dependency of eliot; without it only the stdlib view is used)
     _pmap = None
 
+try:
+    import inspect as _inspect
+    HAS_LOCAL_TIMEZONE = all("local_timezone" in _inspect.signature(f).parameters for f in (pretty_format, compact_format))
+except (TypeError, ValueError):
+    HAS_LOCAL_TIMEZONE = True
+
 SAME_OBJECT_SEQUENCES = ["PCP", "PPC", "PC", "CPC", "PLC", "PcP", "CPLP", "PCPCP", "LPC", "cPC"]  # P pretty, C compact, L pretty local time, c compact local time
 
 
@@ -236,7 +251,7 @@ def run_same_object(m, i, seed, zoff, res, problems):
     except (OverflowError, ValueError):
         local_ts = None  # the local time lies outside datetime's range
     seq = rng.choice(SAME_OBJECT_SEQUENCES)
-    if local_ts is None:
+    if local_ts is None or not HAS_LOCAL_TIMEZONE:
         seq = seq.replace("L", "P").replace("c", "C")
     c = res["counters"]
     holders = [("the same dict object", lambda d: d)]
@@ -244,8 +259,10 @@ def run_same_object(m, i, seed, zoff, res, problems):
         holders.append(("a read-only view (types.MappingProxyType) of the message", types.MappingProxyType))
         if _pmap is not None:
             holders.append(("a read-only copy (pyrsistent.pmap) of the message", _pmap))
+    fresh_texts = {}  # per kind of call: the text for a deep copy of the message that no formatter has seen before
     for what, make in holders:
         obj = copy.deepcopy(m)
+        snapshot = copy.deepcopy(obj)
         held = make(obj)
         done = ""
         for op in seq:
@@ -260,6 +277,20 @@ def run_same_object(m, i, seed, zoff, res, problems):
             if out is not None:
                 if isinstance(out, str):
                     chk(m, out, problems, local_ts if local else None)
+                    if len(problems) == before:
+                        # no dependence on earlier calls: a fresh deep copy of the message as generated, never rendered before, gives the same text
+                        try:
+                            if op.upper() + str(local) not in fresh_texts:
+                                fresh_texts[op.upper() + str(local)] = fn(copy.deepcopy(m), True) if local else fn(copy.deepcopy(m))
+                            fresh = fresh_texts[op.upper() + str(local)]
+                        except BaseException as e:
+                            fresh = None
+                            problems.append("%s of a fresh copy of the message raised %r" % (name, e))
+                        if fresh is not None and fresh != out:
+                            at = next((j for j, (x, y) in enumerate(zip(out, fresh)) if x != y), min(len(out), len(fresh)))
+                            problems.append("%s gives a different text than for a fresh copy of the same message (first difference at offset %d: %r, fresh copy %r)" % (
+                                name, at, out[max(0, at - 30):at + 50], fresh[max(0, at - 30):at + 50]))
+                        c["same_object_renderings_compared_with_fresh_copy"] = c.get("same_object_renderings_compared_with_fresh_copy", 0) + 1
                 else:
                     problems.append("%s returned %s" % (name, type(out).__name__))
             if len(problems) > before:
@@ -273,8 +304,12 @@ def run_same_object(m, i, seed, zoff, res, problems):
             done += op
         if make is not holders[0][1]:
             c["readonly_mapping_renderings"] = c.get("readonly_mapping_renderings", 0) + len(done)
-        # ground truth: the message as generated (m); obj is what the formatters were handed
-        if not (obj == m and json.dumps(obj, sort_keys=True) == json.dumps(m, sort_keys=True)):
+        # ground truth: the message as generated (m); obj is what the formatters were handed, snapshot its deep copy taken before the first call
+        c["same_object_snapshots_compared"] = c.get("same_object_snapshots_compared", 0) + 1
+        if not (obj == snapshot and json.dumps(obj, sort_keys=True) == json.dumps(snapshot, sort_keys=True)):
+            problems.append("%s is not equal to the deep copy taken before rendering it (%s): fields gone %s, fields added %s, fields changed %s" % (
+                what, seq, sorted(set(snapshot) - set(obj)), sorted(set(obj) - set(snapshot)), sorted(k for k in snapshot if k in obj and obj[k] != snapshot[k])))
+        elif not (obj == m and json.dumps(obj, sort_keys=True) == json.dumps(m, sort_keys=True)):
             gone = sorted(set(m) - set(obj))
             problems.append("%s was modified by rendering it (%s): fields gone %s, fields added %s, fields changed %s" % (
                 what, seq, gone, sorted(set(obj) - set(m)), sorted(k for k in m if k in obj and obj[k] != m[k])))
@@ -501,6 +536,207 @@ def run_cli(spec, res):
                                       "detail": {"case": i, "problems": problems[:5], "compact": compact, "input_style": style, "input_head": repr(data[:60]),
                                                  "input": [(l[0], l[1] if l[0] == "foreign" else "message", repr(l[2][:80])) for l in lines],
                                                  "stderr": p.stderr.decode("utf-8", "replace")[-600:]}})
+
+
+# ---------------------------------------------------------------------------------------------------------------------------------
+# part 'sigfile': logs that eliot itself wrote through a text file opened with encoding="utf-8-sig", read by the command
+
+# The application whose log is read: a separate interpreter that logs a small generated program (actions with fields, messages,
+# failing actions, tracebacks) through eliot's public API into a file it opened as text with the "utf-8-sig" codec.
+SIGFILE_PRODUCER = r'''
+import json, sys
+import eliot
+from eliot import FileDestination, add_destinations, log_message, start_action, to_file, write_traceback
+
+job = json.loads(sys.stdin.read())
+kw = {} if job["newline"] is None else {"newline": job["newline"]}
+f = open(job["path"], job["mode"], encoding="utf-8-sig", **kw)
+if job["setup"] == "FileDestination":
+    add_destinations(FileDestination(file=f))
+else:
+    to_file(f)
+
+
+def run(ops):
+    for op in ops:
+        if op[0] == "msg":
+            log_message(message_type=op[1], **op[2])
+        elif op[0] == "tb":
+            try:
+                raise RuntimeError(op[1])
+            except RuntimeError:
+                write_traceback()
+        else:
+            try:
+                with start_action(action_type=op[1], **op[2]) as action:
+                    run(op[3])
+                    if op[4] == "fail":
+                        raise ValueError(op[5])
+                    if op[4] == "fields":
+                        action.add_success_fields(**op[6])
+            except ValueError:
+                pass
+
+
+run(job["ops"])
+f.close()
+'''
+
+
+def gen_sig_fields(rng):
+    out = {}
+    for _ in range(rng.randint(0, 3)):
+        r = rng.random()
+        if r < 0.4:
+            v = gen.gen_scalar(rng)
+        elif r < 0.6:
+            v = rng.choice(["Zürich", "中文 text", "\U0001f600", "line one\nline two", "a\ufeffb", "tab\there", "C:\\logs\\app.log"])
+        else:
+            v = gen.gen_value(rng, rng.choice([1, 2, 3]))
+        out[gen_keyname(rng)] = v
+    return out
+
+
+def gen_sig_ops(rng, depth=0):
+    ops = []
+    for _ in range(rng.randint(1, 3)):
+        r = rng.random()
+        if r < 0.4 or depth >= 2:
+            ops.append(["msg", rng.choice(["app:msg", "svc:état", "x"]), gen_sig_fields(rng)])
+        elif r < 0.5:
+            ops.append(["tb", rng.choice(["boom", "échec \U0001f600", "two\nlines"])])
+        else:
+            ops.append(["act", rng.choice(["app:act", "svc:requête", "x"]), gen_sig_fields(rng), gen_sig_ops(rng, depth + 1),
+                        rng.choice(["ok", "ok", "fail", "fields"]), rng.choice(["bad value", "valeur refusée: 中", ""]), gen_sig_fields(rng)])
+    return ops
+
+
+def count_sig_ops(ops):
+    return sum(1 if op[0] in ("msg", "tb") else 2 + count_sig_ops(op[3]) for op in ops)
+
+
+def run_sigfile(spec, res):
+    import tempfile
+    import time as _time
+    c = res["counters"]
+    for i in range(spec["lo"], spec["hi"]):
+        rng = random.Random("%s:C20:s:%d" % (spec["seed"], i))
+        # how the log file came about: one run of the application; two runs appending to one file; two logs concatenated (cat a b)
+        layout = ["one run", "one run", "two runs appending", "two logs concatenated"][i % 4]
+        setup = "FileDestination" if i % 3 != 2 else "to_file"
+        newline = [None, "\n", "\r\n", ""][(i // 2) % 4]  # the text file's newline translation (a Windows application writes CR LF)
+        zname, zoff = rng.choice(ZONES)
+        os.environ["TZ"] = zname  # (the reference renderings below are computed in the zone the command runs in)
+        _time.tzset()
+        env = _cli_env(zname)
+        with tempfile.TemporaryDirectory(prefix="vf-c20-") as tmp:
+            paths = [os.path.join(tmp, "app.log")] if layout != "two logs concatenated" else [os.path.join(tmp, "a.log"), os.path.join(tmp, "b.log")]
+            jobs = [{"path": paths[0], "mode": "w", "setup": setup, "newline": newline, "ops": gen_sig_ops(rng)}]
+            if layout == "two runs appending":
+                jobs.append({"path": paths[0], "mode": "a", "setup": setup, "newline": newline, "ops": gen_sig_ops(rng)})
+            elif layout == "two logs concatenated":
+                jobs.append({"path": paths[1], "mode": "w", "setup": setup, "newline": newline, "ops": gen_sig_ops(rng)})
+            failed = None
+            for job in jobs:
+                try:
+                    p = subprocess.run([sys.executable, "-c", SIGFILE_PRODUCER], input=json.dumps(job).encode("ascii"), capture_output=True, env=env, timeout=120)
+                except subprocess.TimeoutExpired:
+                    failed = "the logging application exceeded 120 s"
+                    break
+                if p.returncode != 0:
+                    failed = "the logging application ended with status %d: %s" % (p.returncode, p.stderr.decode("utf-8", "replace").strip().splitlines()[-1:])
+                    break
+            if failed:
+                res["inconclusive"] = "part 'sigfile': " + failed
+                continue
+            data = b""
+            for path in paths:
+                with open(path, "rb") as fh:
+                    data += fh.read()
+            logpath = os.path.join(tmp, "whole.log")
+            with open(logpath, "wb") as fh:
+                fh.write(data)
+            # what the file holds, read independently of eliot: lines of JSON text, the first one (of each log) behind the signature
+            raw = data.split(b"\n")
+            if raw and raw[-1] == b"":
+                raw.pop()
+            msgs = []
+            nsig = 0
+            readable = True
+            for ln in raw:
+                body = ln
+                if body.startswith(BOM):
+                    body = body[len(BOM):]
+                    nsig += 1
+                try:
+                    m = json.loads(body.decode("utf-8"))
+                except ValueError:
+                    readable = False
+                    break
+                if not (isinstance(m, dict) and {"task_uuid", "task_level", "timestamp"} <= set(m)):
+                    readable = False
+                    break
+                msgs.append(m)
+            want_lines = sum(count_sig_ops(job["ops"]) for job in jobs)
+            if not (readable and data.startswith(BOM) and nsig == (2 if layout == "two logs concatenated" else 1) and len(msgs) == want_lines):
+                # (what eliot writes into files is C10's subject; this part only reads logs that came out as expected)
+                c["sigfile_logs_not_as_expected"] = c.get("sigfile_logs_not_as_expected", 0) + 1
+                continue
+            c["sigfile_logs_written_by_eliot"] = c.get("sigfile_logs_written_by_eliot", 0) + 1
+            res["sets"].setdefault("sigfile_layouts", []).append("%s, %s, newline=%r" % (layout, setup, newline))
+            local_ok = all(m["timestamp"] < 2.5e11 for m in msgs)
+            for compact, local in ((False, False), (True, False), (rng.random() < 0.5, True)):
+                if local and not local_ok:
+                    continue
+                cmd = CLI_CMD + (["-c"] if compact else []) + (["--local-timezone"] if local else [])
+                try:
+                    with open(logpath, "rb") as fh:  # eliot-prettyprint < whole.log
+                        p = subprocess.run(cmd, stdin=fh, capture_output=True, env=env, timeout=120)
+                except subprocess.TimeoutExpired:
+                    res["inconclusive"] = "eliot-prettyprint subprocess exceeded 120 s"
+                    continue
+                out = p.stdout.decode("utf-8", "replace")
+                problems = []
+                if p.returncode != 0:
+                    err = p.stderr.decode("utf-8", "replace").strip().splitlines()
+                    problems.append("eliot-prettyprint exited with status %d: %s" % (p.returncode, err[-1] if err else ""))
+                fmt, chk = (compact_format, check_compact) if compact else (pretty_format, check_pretty)
+                pos = 0
+                for n, (m, ln) in enumerate(zip(msgs, raw)):
+                    where = "record %d (%s of a log that eliot wrote through a text file opened with encoding='utf-8-sig'%s)" % (
+                        n, "the message behind the UTF-8 signature EF BB BF at the start" if ln.startswith(BOM) else "a later message",
+                        "; %s" % layout if layout != "one run" else "")
+                    want = fmt(copy.deepcopy(m), local) + "\n"
+                    if not out.startswith(want, pos):
+                        problems.append("%s: Eliot message not rendered as the API renders it (found %r)" % (where, out[pos:pos + 100]))
+                        break
+                    pos += len(want)
+                    try:
+                        lts = [(datetime.datetime.fromtimestamp(m["timestamp"], tz=datetime.timezone.utc) + datetime.timedelta(minutes=zoff)).replace(tzinfo=None).isoformat(sep="T")] if local else None
+                    except (OverflowError, ValueError):
+                        lts = False
+                    if lts is not False and all(not any(ch.isspace() for ch in k) and "=" not in k for k in m):
+                        sub = []
+                        chk(m, want[:-1], sub, lts)
+                        if sub:
+                            problems.append("%s: %s" % (where, sub[0]))
+                            break
+                        c["sigfile_records_reparsed"] = c.get("sigfile_records_reparsed", 0) + 1
+                    if ln.startswith(BOM):
+                        c["sigfile_signature_messages_rendered"] = c.get("sigfile_signature_messages_rendered", 0) + 1
+                if not problems and pos != len(out):
+                    problems.append("unexpected extra output %r" % out[pos:pos + 80])
+                res["evals"] += 1
+                c["cli_streams"] = c.get("cli_streams", 0) + 1
+                c["cli_input_lines"] = c.get("cli_input_lines", 0) + len(msgs)
+                c["sigfile_cli_runs"] = c.get("sigfile_cli_runs", 0) + 1
+                if len(msgs) >= 3:
+                    res["nontrivial"].append(h(["sigfile", compact, local, layout, setup, newline, jobs[0]["ops"]]))
+                if problems:
+                    res["violations"].append({"msg": problems[0], "mech": None,
+                                              "detail": {"part": "sigfile", "case": i, "problems": problems[:4], "compact": compact, "local_timezone": local,
+                                                         "layout": layout, "setup": setup, "newline": newline, "input_head": repr(data[:100]),
+                                                         "program": jobs[0]["ops"], "stderr": p.stderr.decode("utf-8", "replace")[-600:]}})
 
 
 def _cli_env(zname="UTC0", unbuffered_removed=False):
@@ -853,7 +1089,7 @@ def run_filter(spec, res):
 
 def run_case(spec):
     res = {"evals": 0, "nontrivial": [], "counters": {}, "violations": [], "sample": None, "sets": {"foreign_kinds": []}}
-    {"format": run_format, "cli": run_cli, "filter": run_filter, "keylen": run_keylen, "live": run_live}[spec["part"]](spec, res)
+    {"format": run_format, "cli": run_cli, "filter": run_filter, "keylen": run_keylen, "live": run_live, "sigfile": run_sigfile}[spec["part"]](spec, res)
     return res
 
 
@@ -871,4 +1107,8 @@ def finalize(agg, tier):
         return "part 'format' never rendered one message object again after pretty_format / never rendered a read-only view"
     if c.get("live_streams", 0) == 0:
         return "part 'live' never fed the command through a pipe that stayed open"
+    if c.get("sigfile_logs_written_by_eliot", 0) == 0 or c.get("sigfile_signature_messages_rendered", 0) == 0 or c.get("sigfile_records_reparsed", 0) == 0:
+        return "part 'sigfile' never fed the command a log that eliot wrote through a utf-8-sig text file / never saw the message behind the signature rendered"
+    if c.get("same_object_renderings_compared_with_fresh_copy", 0) == 0 or c.get("same_object_snapshots_compared", 0) == 0:
+        return "part 'format' never compared a repeated rendering with the rendering of a fresh copy / never compared the caller's dict with its snapshot"
     return None
